@@ -236,11 +236,13 @@ func checkC16(c *Ctx, r *Report) {
 	r.rule("C16.R4", "primitive parser errors are tested on their own result", 4)
 	r.rule("C16.R6", "the tag a member is matched against is the declared tag number in full width (a narrowed number makes the decoder accept an element with another tag instead of reporting it; shared with C04.R11)", 1)
 	r.rule("C16.R7", "the tag number a member is matched against comes from its `tagNum:` parameter only: every assignment of fieldParameters.tagNumber in the tag parser lies behind the test for that prefix", 1)
+	r.rule("C16.R8", "a tag number that does not fit 64 bits is refused: the guard behind the base-128 loop admits at most nine tag-number octets (63 bits) - a tenth wraps the accumulator, and an element tagged 2^64+k is taken for the member tagged k", 1)
 	r.rule("C16.R5", "reflect Set in the special-type cases is type-correct", 3)
 
 	posts := c16Posts(c, r, "C16.R1")
 	checkParseWidths(c, r, "C16.R6", c.fn("cdr/asn", "parseFieldParameters"))
 	c16TagNumberWriters(c, r, "C16.R7")
+	c16TagOctetBound(c, r, "C16.R8")
 	// the decode path: the package functions reachable from the entry points that take the input octets
 	for _, name := range []string{"parseTagAndLength", "parseBitString", "parseInt64", "ParseField", "UnmarshalWithParams", "Unmarshal"} {
 		c.fn("cdr/asn", name) // anchors
@@ -943,5 +945,125 @@ func c16TagNumberWriters(c *Ctx, r *Report, rule string) {
 	})
 	if n == 0 {
 		r.proven(rule, fnKey(f)+"|tagNumber", c.rel(f.Pos()), "the tag parser does not assign fieldParameters.tagNumber itself (a table of parameter handlers does): no assignment here that could sit in the wrong branch")
+	}
+}
+
+// c16TagOctetBound (C16.R8): the cursor that counts the octets of a high tag number is
+// compared with a constant on the way to an error exit; with the identifier octet at index 0,
+// at most 9 further octets (cursor <= 10) may be accepted.
+func c16TagOctetBound(c *Ctx, r *Report, rule string) {
+	f := c.fn("cdr/asn", "parseTagAndLength")
+	key := fnKey(f) + "|octets of a high tag number"
+	// the loop that shifts by 7, and the counter it increments
+	var counter *ssa.Phi
+	for _, b := range f.Blocks {
+		if !inCycle(b) {
+			continue
+		}
+		hasShl := false
+		for _, ins := range b.Instrs {
+			if bo, ok := ins.(*ssa.BinOp); ok && bo.Op == token.SHL {
+				if k, ok := constInt(bo.Y); ok && k == 7 {
+					hasShl = true
+				}
+			}
+		}
+		if !hasShl {
+			continue
+		}
+		for _, ins := range b.Instrs {
+			bo, ok := ins.(*ssa.BinOp)
+			if !ok || bo.Op != token.ADD {
+				continue
+			}
+			if k, ok := constInt(bo.Y); ok && k == 1 {
+				if ph, ok := bo.X.(*ssa.Phi); ok && isIntegerType(ph.Type()) {
+					counter = ph
+				}
+			}
+		}
+	}
+	if counter == nil {
+		r.proven(rule, key, c.rel(f.Pos()), "no base-128 accumulation loop with an octet counter in the tag parser: nothing to bound here (C16.R1 covers the accesses)")
+		return
+	}
+	best := int64(-1)
+	for _, b := range f.Blocks {
+		if len(b.Instrs) == 0 || len(b.Succs) != 2 {
+			continue
+		}
+		iff, ok := b.Instrs[len(b.Instrs)-1].(*ssa.If)
+		if !ok {
+			continue
+		}
+		bo, ok := iff.Cond.(*ssa.BinOp)
+		if !ok || (bo.Op != token.GTR && bo.Op != token.GEQ) {
+			continue
+		}
+		k, isK := constInt(bo.Y)
+		if !isK {
+			continue
+		}
+		// the compared value is the cursor itself (its value in or behind the loop), not
+		// something read at the cursor
+		var isCursor func(v ssa.Value, d int) bool
+		isCursor = func(v ssa.Value, d int) bool {
+			v = stripConv(v)
+			if d > 6 {
+				return false
+			}
+			switch x := v.(type) {
+			case *ssa.Phi:
+				if x == counter {
+					return true
+				}
+				any := false
+				for _, e := range x.Edges {
+					if _, isK := constInt(e); isK {
+						continue
+					}
+					if !isCursor(e, d+1) {
+						return false
+					}
+					any = true
+				}
+				return any
+			case *ssa.BinOp:
+				if x.Op == token.ADD {
+					if _, isK := constInt(x.Y); isK {
+						return isCursor(x.X, d+1)
+					}
+				}
+			}
+			return false
+		}
+		if !isCursor(bo.X, 0) {
+			continue
+		}
+		// the true edge must be an error exit
+		rejects := false
+		for _, ri := range returnsOf(f) {
+			if len(ri.Vals) > 0 && !isNilConst(ri.Vals[len(ri.Vals)-1]) && edgeDominates(b, b.Succs[0], ri.At) {
+				if _, isCall := ri.Vals[len(ri.Vals)-1].(*ssa.Call); isCall {
+					rejects = true
+				}
+			}
+		}
+		if !rejects {
+			continue
+		}
+		max := k
+		if bo.Op == token.GEQ {
+			max = k - 1
+		}
+		if best < 0 || max < best {
+			best = max
+		}
+	}
+	switch {
+	case best < 0:
+		r.viol(rule, key, c.rel(counter.Pos()), "nothing bounds the number of octets of a high tag number: a long run of continuation octets wraps the 64-bit accumulator, and the element is taken for a member with a small tag")
+	default:
+		r.check(best <= 10, rule, key, c.rel(counter.Pos()), fmt.Sprintf("at most %d octets after the identifier octet are accepted", best-1), fmt.Sprintf("up to %d tag-number octets are accepted (cursor <= %d): %d x 7 bits do not fit the 64-bit accumulator, so tag 2^64+k wraps to k and an element with that tag is decoded into the member tagged k instead of being refused", best-1, best, best-1))
 	}
 }
